@@ -198,12 +198,101 @@ def run_set(species):
     return 1, nchk, viols
 
 
+def conformance(arg):
+    """the real compiled Naunet::SetReferenceAbund + Renorm (rendered naunet.cpp linked against the shim's
+    dense LU / uBLAS LU) must land on the exact rational solution"""
+    species, backend = arg
+    import shutil
+    import struct
+    import subprocess
+    import tempfile
+    from pathlib import Path
+
+    from ..core.runner import VERIF
+    from ..harness.cxx import GXX, SHIM, run as runcmd
+    from ..harness.render import render, reset_globals, quiet, scratch
+
+    reset_globals()
+    from naunet.network import Network
+
+    case = {"species": list(species), "backend": backend, "conformance": True}
+    with quiet():
+        net = Network(required_species=list(species))
+        files = render(net, backend, None)
+    macros = read_macros(files["include/naunet_macros.h"])
+    matrix, factors, err = read_renorm(files, backend, macros)
+    if err:
+        return 0, []
+    ea = read_element_abund(files, macros)
+    slots = {s: macros.value("IDX_" + ALIASES[s]) for s in species}
+    elem_slots = {n[9:]: macros.value(n) for n in macros.text if n.startswith("IDX_ELEM_")}
+    nelem, neq = macros.value("NELEMENTS"), macros.value("NEQUATIONS")
+    ab = {slots[s]: ABVALS[i % len(ABVALS)] * (i + 1) for i, s in enumerate(species)}
+    totals = {e: P.evaluate(ea[sl], lambda sym: ab[int(sym.split(":")[1])]) for e, sl in elem_slots.items()}
+    hn = totals["H"]
+    ref = {sl: totals[e] / hn * (PRIMES[k % len(PRIMES)] if e != "H" else 1) for k, (e, sl) in enumerate(sorted(elem_slots.items()))}
+    M = [[P.evaluate(matrix[(i, j)], lambda s_: ab[int(s_[3:])] if s_.startswith("ab:") else hn) for j in range(nelem)] for i in range(nelem)]
+    r = solve(M, [ref[i] for i in range(nelem)])
+    if r is None:
+        return 0, []
+    exp = {}
+    for s_, sl in slots.items():
+        exp[sl] = float(P.evaluate(factors[sl], lambda sym: ab[int(sym[3:])] if sym.startswith("ab:") else r[int(sym[5:])]))
+    d = Path(tempfile.mkdtemp(dir=scratch()))
+    try:
+        for rel, text in files.items():
+            p_ = d / rel
+            p_.parent.mkdir(parents=True, exist_ok=True)
+            p_.write_text(text)
+        refarr = ", ".join(repr(float(ref[i])) for i in range(nelem))
+        abarr = ", ".join(repr(float(ab.get(i, 0))) for i in range(neq))
+        (d / "driver.cpp").write_text(f"""
+#include <stdio.h>
+#include "naunet.h"
+char *verif_log_buf = NULL; size_t verif_log_len = 0;
+int main() {{
+    Naunet n; n.Init();
+    double ref[NELEMENTS] = {{ {refarr} }};
+    double ab[NEQUATIONS] = {{ {abarr} }};
+    n.SetReferenceAbund(ref, 0);
+    int rc = n.Renorm(ab);
+    FILE *o = fopen("out.bin", "wb"); fwrite(ab, sizeof(double), NEQUATIONS, o); fclose(o);
+    n.Finalize();
+    return rc;
+}}
+""")
+        srcs = sorted(str(x.relative_to(d)) for x in (d / "src").glob("*.cpp"))
+        extra = [str(VERIF / "cxx" / "stub_cvode.cpp")] if backend != "rosenbrock4" else []
+        cmd = [GXX, "-std=c++17", "-w", "-O0", "-include", str(VERIF / "cxx" / "verif_io.h"), "-I", str(SHIM), "-I", "include", *srcs, *extra, "driver.cpp", "-o", "drv", "-lm"]
+        rc, so, se = runcmd(cmd, cwd=str(d), timeout=600)
+        if rc != 0:
+            first = next((ln for ln in se.splitlines() if "error" in ln), se[:200])
+            return 1, [(f"C16:conformance-compile:{backend}", f"{'+'.join(species)} [{backend}]: {first[:300]}", case)]
+        pr = subprocess.run(["./drv"], cwd=str(d), capture_output=True, timeout=120)
+        if pr.returncode != 0:
+            return 1, [(f"C16:renorm-returns-failure:{backend}", f"{'+'.join(species)} [{backend}]: Renorm returned {pr.returncode}", case)]
+        got = struct.unpack(f"<{neq}d", (d / "out.bin").read_bytes())
+        for sl, e in exp.items():
+            if abs(got[sl] - e) > 1e-9 * max(abs(e), 1e-300):
+                return 1, [(f"C16:compiled-renorm-differs:{backend}", f"{'+'.join(species)} [{backend}]: compiled Renorm gives ab[{sl}] = {got[sl]!r}, exact solution of the emitted system {e!r}", case)]
+        return 1, []
+    finally:
+        shutil.rmtree(d, ignore_errors=True)
+
+
 def run(ctx):
     sets = list(species_sets(ctx.tier))
     n = nchk = 0
     for k, c, viols in ctx.pmap(run_set, sets, chunksize=4):
         n += k
         nchk += c
+        ctx.absorb(viols)
+    clean = [sp for sp in sets if not any(x.startswith("GRAIN") for x in sp) and all(any(len(COMP[a]) == 1 and a in COMP and list(COMP[a]) == [e] and not a.endswith(("+", "-")) and not a.startswith("#") and sum(COMP[a].values()) == 1 for a in sp) for x in sp for e in COMP[x])]
+    step = 12 if ctx.tier == "quick" else 3
+    conf = [(sp, b) for i, sp in enumerate(clean) if i % step == ctx.seed % step for b in ("dense", "rosenbrock4")]
+    nconf = 0
+    for k, viols in ctx.pmap(conformance, conf):
+        nconf += k
         ctx.absorb(viols)
     ctx.assumptions += [
         "every set contains atomic H (Renorm only exists #ifdef IDX_ELEM_H); networks are built from required_species (renormalisation does not depend on reactions)",
@@ -216,10 +305,15 @@ def run(ctx):
         "rule": "all species sets {H} + 1..4 (quick 1..3) of {H+, H2, e-, D, HD, C, O, CO, #CO, H2O, GRAIN0, GRAIN0-} x 3-5 positive abundance vectors x {matching, scaled} reference ratios x {cvode, odeint} text",
         "samples": sets[:: max(1, len(sets) // 6)][:6],
         "species_sets": len(sets),
+        "compiled_renorm_conformance_runs": nconf,
         "exhaustive": True,
     }
 
 
 def replay(ctx, case):
+    if case.get("conformance"):
+        k, v = conformance((case["species"], case["backend"]))
+        ctx.absorb(v)
+        return
     n, c, v = run_set(case["species"])
     ctx.absorb(v)
